@@ -302,6 +302,11 @@ class Engine(ExprMixin, CallMixin, StmtMixin):
             return T.sv_bool(TH.pmem(s.t, j.t, n.t))
         if fn == "real":
             return T.sv_real(T.to_real(self.unopt(self.ev(e.args[0], p), p, "spec")))
+        if fn == "local":        # local("x"): the function's local variable x at the normal exit (postconditions only)
+            nm = e.args[0].value if e.args and isinstance(e.args[0], ast.Constant) else None
+            if self.cx.locals_env is None or nm not in self.cx.locals_env:
+                raise ContractError(f"local({nm!r}) is not available here")
+            return self.cx.locals_env[nm]
         if fn in ("is_pinf", "is_ninf"):     # is_pinf(x): the extended integer x is +infinity (math.inf)
             v = self.coerce(self.ev(e.args[0], p), T.XINT)
             return T.sv_bool(T.XIntS.is_pinf(v.t) if fn == "is_pinf" else T.XIntS.is_ninf(v.t))
